@@ -265,8 +265,12 @@ class RealWorld:
                 ds.subset(idx)
                 return "ok", "-"
             if o == "extend":
+                plain = _plain_only(ds._fields) and _plain_only(self.ds[op["e"]]._fields)
                 ds.extend(self.ds[op["e"]])
-                return "ok", "-"
+                # two tables of plain columns: the columns of the result, for the list-of-records `extend`
+                if not plain:
+                    return "ok", "-"
+                return "ok", "x" + "/".join(f"{n}={rows_token(describe(a)[3])}" for n, a in _columns(ds._fields, ""))
             if o == "merge":
                 ds.merge_with(*[self.ds[e] for e in op["es"]], sort_by=op.get("sort_by"))
                 return "ok", "-"
@@ -278,10 +282,35 @@ class RealWorld:
             if o == "unique":
                 u = ds.unique(op["path"])
                 return "ok", "v" + ",".join(scal(x) for x in u)
+            if o == "diff":
+                # the result goes into slot r (which may be the slot of an operand: the operand is then replaced)
+                res = ds.difference(self.ds[op["e"]], index_by=op.get("index_by"),
+                                    copy_self_on_error=bool(op.get("cs")), copy_other_on_error=bool(op.get("co")))
+                self.ds[op["r"]] = res
+                return "ok", "-"
             raise AssertionError(o)
         except Exception as e:  # mapped to a small enum, never propagated
             self.last_exc = e
             return "err", err_enum(e)
+
+
+def _plain_only(fields) -> bool:
+    """only bool / float / text fields, at every depth"""
+    for f in fields.values():
+        if f.fieldtype == "collection":
+            if not _plain_only(f.data._fields):
+                return False
+        elif f.fieldtype not in ("bool", "float", "text"):
+            return False
+    return True
+
+
+def _columns(fields, prefix):
+    for name, f in fields.items():
+        if f.fieldtype == "collection":
+            yield from _columns(f.data._fields, prefix + name + ".")
+        else:
+            yield prefix + name, f.data
 
 
 def _pyval(tok: str):
@@ -333,6 +362,10 @@ def op_tokens(op) -> List[str]:
         return ["filter", str(op["d"]), "&".join(f"{p}={v}" for p, v in op["filters"]) or "-"]
     if o == "unique":
         return ["unique", str(op["d"]), op["path"]]
+    if o == "diff":
+        ib = op.get("index_by")
+        return ["diff", str(op["d"]), str(op["e"]), str(op["r"]), "-" if ib is None else ib.replace(" ", ""),
+                "1" if op.get("cs") else "0", "1" if op.get("co") else "0"]
     raise AssertionError(o)
 
 
@@ -447,6 +480,9 @@ SYMBOLIC_ALPHABET = [
     {"sym": "del", "d": 0, "path": "p1"},
     {"sym": "del", "d": 0, "path": "c.m"},
     {"sym": "late_add", "d": 0},
+    # difference paired by the tie-rich key (keys 100,101,102,100 vs 101,102,100: another order, a duplicate);
+    # the result replaces dataset 0, so the operations that follow act on it
+    {"op": "diff", "d": 0, "e": 1, "r": 0, "index_by": "key", "cs": True, "co": False},
 ]
 
 
@@ -489,8 +525,11 @@ def random_history(rng) -> List[dict]:
     # a schema of named fields; each dataset takes a random subset of it
     schema = []
     names = ["a", "b", "c", "d", "e", "f", "g", "h"]
+    # one history in five has plain columns only (bool / float / text): there every `extend` is also compared
+    # with the list-of-records `extend` the model is proved to refine
+    plain_only = rng.random() < 0.2
     for i, nm in enumerate(rng.sample(names, rng.randint(2, 7))):
-        kind = rng.choice(KINDS)
+        kind = rng.choice(["bool", "float", "float", "text"]) if plain_only else rng.choice(KINDS)
         ndim = 1
         cols = 1
         if kind in ("float", "bool", "text", "sigma") and rng.random() < 0.3:
@@ -549,10 +588,22 @@ def random_history(rng) -> List[dict]:
             ops.append(add_op(d, f["path"], kind, val, unit=unit, level=rng.choice([1, 2, 3])))
             if kind in ("position", "posvel"):
                 pos_fields.append((f["path"], kind))
+    # sometimes an accumulator: a dataset without fields and without rows that the others are merged into
+    # (`acc = Dataset(); for part in parts: acc.extend(part)`); the parts must not change when `acc` does
+    acc = None
+    if rng.random() < 0.25:
+        acc = nds
+        ops.append({"op": "new", "d": acc, "n": 0})
+        nds += 1
     for o in ops[:-1]:
         o["setup"] = True
     # the operation sequence
     length = rng.randint(1, 25) if rng.random() < 0.7 else rng.randint(1, 5)
+    if acc is not None and rng.random() < 0.8:
+        ops.append({"op": "extend", "d": acc, "e": rng.randrange(acc)})
+        ops.append(rng.choice([{"op": "extend", "d": acc, "e": rng.randrange(acc)},
+                               {"sym": "rand_ints", "d": acc, "seed": rng.getrandbits(30)},
+                               {"sym": "rand_mask", "d": acc, "p": 0.5, "seed": rng.getrandbits(30)}]))
     for _ in range(length):
         r = rng.random()
         d = rng.randrange(nds)
@@ -577,8 +628,181 @@ def random_history(rng) -> List[dict]:
                 t = rng.choice([0, 1, 2, 16, 17])
                 v = ("n" + str(t + 100 * f["salt"])) if f["kind"] == "float" else ("t" + hexs(f"s{f['salt']}r{t}"))
                 ops.append({"op": "filter", "d": d, "filters": [[f["path"], v]]})
-        else:
+        elif r < 0.96:
             ops.append({"sym": "late_add", "d": d})
+        else:
+            cand = [f["path"] for f in schema if f["ndim"] == 1 and f["kind"] in ("float", "text", "time", "bool")
+                    and "." not in f["path"]]
+            ib = None
+            if cand and rng.random() < 0.7:
+                ib = ",".join(rng.sample(cand, min(len(cand), rng.choice([1, 1, 2]))))
+            ops.append({"op": "diff", "d": d, "e": rng.randrange(nds), "r": rng.randrange(nds + 1), "index_by": ib,
+                        "cs": rng.random() < 0.5, "co": rng.random() < 0.5})
+    return ops
+
+
+# ---------------------------------------------------------------------------------------------
+# histories around `difference`
+
+KEY_POOL = {
+    "text": ["a", "b", "ab", "abc", "b1", "ba", "c", "ca", "", "B"],   # different lengths on purpose
+    "float": [0.0, 1.0, 2.0, 2.5, -1.0, 3.0, 10.0, 0.5],
+    "bool": [False, True],
+    "time": [51544.0, 51545.0, 51546.0, 51547.0, 51550.0, 51543.0],
+}
+
+
+def _raw_obj(kind, vals):
+    return {"op": "obj", "kind": kind, "ndim": 1, "cols": 1, "vals": list(vals)}
+
+
+def diff_history(rng) -> List[dict]:
+    """Two datasets built for `difference`: 0..2 index fields (text / float / bool / time) whose key tuples come from a
+    small universe (so: common keys at other row positions, duplicates, keys on one side only, sometimes none in
+    common), value fields of every type at the top level and in collections nested up to depth 2 (each present in one
+    or both datasets), differing / incompatible / one-sided units; then the difference (into a new slot or replacing an
+    operand) with random copy flags, and a few operations on the result."""
+    ops: List[dict] = []
+    nobj = [0]
+
+    def push_obj(op):
+        ops.append(op)
+        nobj[0] += 1
+        return ("o", nobj[0] - 1)
+
+    def obj(*a, **kw):
+        return push_obj(obj_op(*a, **kw))
+
+    nkeys = rng.choice([0, 1, 1, 1, 2, 2, 3])
+    key_kinds = [rng.choice(["text", "text", "float", "float", "time", "bool"]) for _ in range(nkeys)]
+    key_names = [f"k{i}" for i in range(nkeys)]
+    universe = []
+    if nkeys:
+        usize = rng.randint(1, 7)
+        seen = set()
+        for _ in range(40):
+            t = tuple(rng.choice(KEY_POOL[k]) for k in key_kinds)
+            if t not in seen:
+                seen.add(t)
+                universe.append(t)
+            if len(universe) >= usize:
+                break
+    na = rng.choice([0, 1, 2, 3, 4, 5, 6, 7, 8])
+    nb = na if (nkeys == 0 and rng.random() < 0.85) else rng.choice([0, 1, 2, 3, 4, 5, 6, 7, 8])
+    mode = rng.random()
+    schema = []
+    names = ["a", "b", "c", "d", "e", "f", "g", "h"]
+    for i, nm in enumerate(rng.sample(names, rng.randint(2, 7))):
+        kind = rng.choice(KINDS + ["float", "float", "text"])
+        ndim, cols = 1, 1
+        if kind in ("float", "bool", "text", "sigma") and rng.random() < 0.3:
+            ndim, cols = 2, rng.choice([1, 2, 3])
+        if kind in POSCOLS:
+            ndim, cols = 2, POSCOLS[kind]
+        where = rng.choice(["", "", "g1.", "g1.", "g1.g2.", "g1.g2.", "g3."])
+        schema.append({"path": where + nm, "kind": kind, "ndim": ndim, "cols": cols, "salt": i + 1,
+                       "unit": rng.choice([None, "bit", "ounce"]) if kind in ("float", "sigma") else None})
+    for d, n in ((0, na), (1, nb)):
+        tags = [16 * d + r for r in range(n)]
+        ops.append({"op": "new", "d": d, "n": n})
+        # the index fields; dataset 1 sometimes has them after the value fields (field order must not matter)
+        if nkeys:
+            if mode < 0.08:
+                # nothing in common: the two datasets draw from disjoint halves of the universe
+                half = universe[: max(1, len(universe) // 2)] if d == 0 else universe[max(1, len(universe) // 2):]
+                src = half or [tuple(("zz" if k == "text" else 99.0 if k == "float" else 51599.0 if k == "time" else True)
+                                     for k in key_kinds)]
+            else:
+                src = universe
+            rows = [rng.choice(src) for _ in range(n)]
+            if d == 1 and mode > 0.9:
+                rows = sorted(rows, key=repr)
+        pos_fields: List[tuple] = []
+        key_ops = []
+        for j, (nm, kk) in enumerate(zip(key_names, key_kinds)):
+            if rng.random() < 0.03:
+                continue  # an index field missing in this dataset: AttributeError expected
+            ref = push_obj(_raw_obj(kk, [r[j] for r in rows]))
+            key_ops.append(add_op(d, nm, kk, ref, level=rng.choice([1, 2, 3])))
+        late_keys = d == 1 and rng.random() < 0.3
+        if not late_keys:
+            ops.extend(key_ops)
+        for f in schema:
+            if rng.random() < 0.15:
+                continue  # only in the other dataset
+            kind, ndim, cols = f["kind"], f["ndim"], f["cols"]
+            if rng.random() < 0.02 and kind in ("float", "bool", "text"):
+                ndim, cols = (2, 2) if ndim == 1 else (1, 1)
+            unit = f["unit"]
+            if unit is not None and rng.random() < 0.35:
+                unit = {"bit": "byte", "ounce": "pound"}[unit] if rng.random() < 0.85 else "pound"
+            if f["unit"] is not None and rng.random() < 0.06:
+                unit = None
+            other = ref_pos = None
+            if kind in ("position", "posvel"):
+                same = [p for p, k in pos_fields if k == kind]
+                r = rng.random()
+                if same and r < 0.4:
+                    other = ("f", d, rng.choice(same))
+                elif r < 0.6:
+                    other = obj(kind, 2, cols, tags, 40 + f["salt"])
+            if kind in ("position_delta", "posvel_delta"):
+                rk = "position" if kind == "position_delta" else "posvel"
+                same = [p for p, k in pos_fields if k == rk]
+                if same and rng.random() < 0.6:
+                    ref_pos = ("f", d, rng.choice(same))
+                else:
+                    inner = obj(rk, 2, cols, tags, 60 + f["salt"]) if rng.random() < 0.3 else None
+                    ref_pos = obj(rk, 2, cols, tags, 50 + f["salt"], other=inner)
+            val = obj(kind, ndim, cols, tags, f["salt"], other=other, ref_pos=ref_pos)
+            ops.append(add_op(d, f["path"], kind, val, unit=unit, level=rng.choice([1, 2, 3])))
+            if kind in ("position", "posvel"):
+                pos_fields.append((f["path"], kind))
+        if late_keys:
+            ops.extend(key_ops)
+    for o in ops[:-1]:
+        o["setup"] = True
+    index_by = None
+    if nkeys:
+        sep = rng.choice([",", ", ", " , "])
+        index_by = sep.join(key_names if rng.random() < 0.8 else rng.sample(key_names, len(key_names)))
+    r = rng.choice([2, 2, 2, 0, 1])
+    ops.append({"op": "diff", "d": 0, "e": 1, "r": r, "index_by": index_by, "cs": rng.random() < 0.5,
+                "co": rng.random() < 0.5})
+    text_fields = [f for f in schema if f["kind"] == "text" and f["ndim"] == 1]
+    if text_fields and (ops[-1]["cs"] or ops[-1]["co"]) and rng.random() < 0.3:
+        # the text field survives only as `<name>_self` / `<name>_other`: `Dataset.filter` falls back on those
+        f = rng.choice(text_fields)
+        ops.append({"op": "filter", "d": r, "filters": [[f["path"], "t" + hexs(f"s{f['salt']}r{rng.choice([0, 1, 2, 16, 17])}")]]})
+    for _ in range(rng.choice([0, 0, 1, 2, 3])):
+        x = rng.random()
+        if x < 0.2:
+            ops.append({"sym": "rand_mask", "d": r, "p": rng.choice([0.3, 0.6, 1.0]), "seed": rng.getrandbits(30)})
+        elif x < 0.4:
+            ops.append({"sym": "rand_ints", "d": r, "seed": rng.getrandbits(30)})
+        elif x < 0.55:
+            ops.append({"op": "extend", "d": r, "e": r})
+        elif x < 0.7:
+            # the difference of the result with itself, by position
+            ops.append({"op": "diff", "d": r, "e": r, "r": rng.choice([r, 3]), "index_by": None,
+                        "cs": rng.random() < 0.5, "co": rng.random() < 0.5})
+        elif x < 0.8 and index_by:
+            ops.append({"op": "merge", "d": r, "es": [], "sort_by": key_names[0]})
+        elif x < 0.9:
+            # the other way round, into another slot, then the two results are joined
+            ops.append({"op": "diff", "d": 1, "e": 0, "r": 3, "index_by": index_by, "cs": rng.random() < 0.5,
+                        "co": rng.random() < 0.5})
+            ops.append({"op": "extend", "d": r, "e": 3})
+        elif x < 0.94:
+            ops.append({"op": "del", "d": r, "path": rng.choice(schema)["path"]})
+        else:
+            # filter on a text field: after the difference it exists only as `<name>_self` / `<name>_other`, which
+            # `Dataset.filter` falls back on (a row passes when either has the value)
+            cand = [f for f in schema if f["kind"] == "text" and f["ndim"] == 1]
+            if cand:
+                f = rng.choice(cand)
+                t = rng.choice([0, 1, 2, 16, 17, 18])
+                ops.append({"op": "filter", "d": r, "filters": [[f["path"], "t" + hexs(f"s{f['salt']}r{t}")]]})
     return ops
 
 
